@@ -7,8 +7,12 @@
 
 use std::collections::BTreeMap;
 
+use serde::{Deserialize, Serialize};
 use specs::prelude::*;
-use specs::saveload::{DeserializeComponents, MarkedBuilder, SerializeComponents, SimpleMarker, SimpleMarkerAllocator};
+use specs::saveload::{
+    ConvertSaveload, DeserializeComponents, MarkedBuilder, Marker, SerializeComponents, SimpleMarker, SimpleMarkerAllocator,
+};
+use specs::ConvertSaveload;
 use specs::storage::{BTreeStorage, ComponentEvent, DenseVecStorage, FlaggedStorage, HashMapStorage, VecStorage};
 use specs::{Builder, ReaderId};
 
@@ -36,6 +40,16 @@ pub struct F(pub u64);
 impl Component for F {
     type Storage = FlaggedStorage<Self, DenseVecStorage<Self>>;
 }
+/// A component holding references to other entities (serialised through the marker mapping).
+#[derive(ConvertSaveload, Clone, Debug, PartialEq)]
+pub struct Link {
+    pub to: Entity,
+    pub also: Entity,
+    pub w: u32,
+}
+impl Component for Link {
+    type Storage = VecStorage<Self>;
+}
 pub struct Net;
 type M = SimpleMarker<Net>;
 
@@ -47,6 +61,7 @@ struct W {
     bufs: Vec<String>,
     serialised_entities: u64,
     hash_joins: u64,
+    recursive_serialisations: u64,
 }
 
 fn new_world() -> W {
@@ -55,10 +70,11 @@ fn new_world() -> W {
     world.register::<V>();
     world.register::<B>();
     world.register::<F>();
+    world.register::<Link>();
     world.register::<M>();
     world.insert(SimpleMarkerAllocator::<Net>::new());
     let reader = world.write_storage::<F>().register_reader();
-    W { world, handles: Vec::new(), reader, out: Vec::new(), bufs: Vec::new(), serialised_entities: 0, hash_joins: 0 }
+    W { world, handles: Vec::new(), reader, out: Vec::new(), bufs: Vec::new(), serialised_entities: 0, hash_joins: 0, recursive_serialisations: 0 }
 }
 
 /// One operation, fully determined by (code, a, b, c); choices that depend on
@@ -263,6 +279,40 @@ fn step(w: &mut W, code: usize, a: u64, b: u64, c: u64) {
                 }));
             }
         }
+        15 => {
+            // link two entities (references between entities)
+            if let (Some(e), Some(t), Some(u)) = (pick(w, a), pick(w, b), pick(w, c)) {
+                let r = w.world.write_storage::<Link>().insert(e, Link { to: t, also: u, w: (a % 50) as u32 }).is_ok();
+                w.out.push(format!("link({:?} -> {:?}, {:?}) -> {}", e, t, u, r));
+            }
+        }
+        16 => {
+            // recursive serialisation: marks and transfers everything reachable through links.
+            // Links whose targets are dead are dropped first (their conversion is undefined).
+            {
+                let ents = w.world.entities();
+                let mut links = w.world.write_storage::<Link>();
+                let dangling: Vec<Entity> = (&ents, &links).join().filter(|(_, l)| !ents.is_alive(l.to) || !ents.is_alive(l.also)).map(|(e, _)| e).collect();
+                for e in dangling {
+                    links.remove(e);
+                }
+            }
+            let text = {
+                let ents = w.world.entities();
+                let h = w.world.read_storage::<H>();
+                let links = w.world.read_storage::<Link>();
+                let mut ms = w.world.write_storage::<M>();
+                let mut alloc = w.world.write_resource::<SimpleMarkerAllocator<Net>>();
+                let mut buf = Vec::new();
+                let mut ser = serde_json::Serializer::new(&mut buf);
+                SerializeComponents::<std::convert::Infallible, M>::serialize_recursive(&(&h, &links), &ents, &mut ms, &mut alloc, &mut ser).unwrap();
+                drop(ser);
+                w.serialised_entities += (&ents, &ms).join().count() as u64;
+                String::from_utf8(buf).unwrap()
+            };
+            w.recursive_serialisations += 1;
+            w.out.push(format!("serialize_recursive -> {}", text));
+        }
         _ => {
             if let Some(e) = pick(w, a) {
                 let ents = w.world.entities();
@@ -276,7 +326,7 @@ fn step(w: &mut W, code: usize, a: u64, b: u64, c: u64) {
 fn gen_history(rng: &mut Rng, n: usize) -> Vec<(usize, u64, u64, u64)> {
     (0..n)
         .map(|_| {
-            let code = rng.weighted(&[16, 8, 6, 8, 5, 4, 7, 10, 5, 7, 6, 4, 5, 3, 4]);
+            let code = rng.weighted(&[16, 8, 6, 8, 5, 4, 7, 10, 5, 7, 6, 4, 5, 3, 4, 9, 4]);
             (code, rng.next() % 1000, rng.next() % 1000, rng.next() % 1000)
         })
         .collect()
@@ -360,6 +410,7 @@ fn run_case(rep: &mut Report, case: u64, hashes: &mut BTreeMap<u64, u64>) {
     rep.bump("transcript_lines", a.out.len() as u64);
     rep.bump("entities_serialised", a.serialised_entities);
     rep.bump("joins_over_hash_map_storage", a.hash_joins);
+    rep.bump("recursive_serialisations", a.recursive_serialisations);
     let nontrivial = a.hash_joins >= 1 && a.serialised_entities >= 3;
     if nontrivial && failure.is_none() {
         rep.distinct(h);
